@@ -406,6 +406,31 @@ theorem crash_leaves_complete_file (s0 : PState) (h0 : Init s0) (steps : List St
 
 
 
+
+/-- **A name a list brings in is blocked at once** — whatever route it takes
+into memory (a file in the directory, a downloaded remote list, the main file at
+start-up: all go through `loadNames`), and without any API mutation or version
+bump: as soon as the load has run, `Exists` reports the name (unless the
+whitelist covers it), and `ServeDNS`, which is a function of the current maps
+only, null-routes it — there is no remembered "this name was clean" that could
+outlive the load.  (`hc`: the name is properly escaped; `*.` alone is the root
+wildcard of known finding 2.) -/
+theorem loaded_name_is_blocked (cfg : Cfg) (b : Mem) (ns : List Str) (n : Str) (t : Nat) (hn : n ∈ ns)
+    (hc : canonical (canonical n) = canonical n) (hstar : canonical n ≠ ['*', '.'])
+    (hwl : ¬ Hit (canonical n) b.w) :
+    «exists» (loadNames b ns) n = true ∧ (serveDNS cfg (loadNames b ns) n t).next = false := by
+  have h : «exists» (loadNames b ns) n = true := by
+    rcases loadNames_blocks b ns n hn hc hstar with h | h
+    · exact h
+    · exact absurd h hwl
+  refine ⟨h, ?_⟩
+  obtain ⟨r, hr, _⟩ := (blocked_reply_shape cfg (loadNames b ns) n t).2 h
+  rw [hr]
+
+example : (serveDNS { nullroute := "0.0.0.0".toList, null6route := "::".toList }
+    (parseHostFile { m := ["example.com.".toList] } "*.cdn.example.org\n0.0.0.0 other.example.net\n".toList)
+    "Late2.cdn.example.org.".toList typeAAAA).next = false := by decide
+
 /-- **A directory load only adds**: whatever the directory holds (the main file,
 staging files, downloaded remote lists are all parsed the same way), merging it
 never unlists an entry and never touches the whitelist. -/
